@@ -115,6 +115,19 @@ def run(chk, replay=None):
             chk.count()
             if got != outs[0]:
                 chk.violate('a run with the same key (reached through a symbolic link / from another directory) gives different ciphertexts', {'variant': i, 'out0': outs[0][:200].decode('utf-8', 'replace'), 'got': got[:200].decode('utf-8', 'replace')}, tags=['cli', 'keypath'])
+        # ... and two runs naming the key by other spellings of a relative path (a directory literally called '~', './', 'sub/../'):
+        # each spelling names ONE file; the second run must find the key the first one stored, so the ciphertexts agree
+        for sp in ('~/k2.key', './k3.key', 'sub/../k4.key', '~k5.key', 'k6 .key'):
+            os.makedirs(os.path.join(d, '~'), exist_ok=True); os.makedirs(os.path.join(d, 'sub'), exist_ok=True)
+            pair = []
+            for i in range(2):
+                o = os.path.join(d, 'outs%d' % i)
+                if os.path.exists(o): os.remove(o)
+                p = subprocess.run([CLI, 'redact', inp, '-o', o, '-y', '--encryptionKeyFile=' + sp], stdin=subprocess.DEVNULL, capture_output=True, cwd=d, env={'PATH': '/usr/bin:/bin', 'HOME': os.path.join(d, 'home')})
+                pair.append(open(o, 'rb').read() if os.path.exists(o) else b'<none rc=%d>' % p.returncode)
+                chk.count()
+            if pair[0] != pair[1] or not pair[0] or b'<none' in pair[0]:
+                chk.violate('two runs naming the same key file (by a relative spelling) give different ciphertexts', {'key_path_as_given': sp, 'run1': pair[0][:160].decode('utf-8', 'replace'), 'run2': pair[1][:160].decode('utf-8', 'replace')}, tags=['cli', 'keypath', 'determinism'])
         if outs[0] != outs[1] or not outs[0]:
             chk.violate('two CLI runs with one key file differ', {'out0': outs[0][:300].decode('utf-8', 'replace'), 'out1': outs[1][:300].decode('utf-8', 'replace')}, tags=['cli'])
     # the other input channel of `redact --encrypt`: Atlas. First run creates the key file, the second one finds it: same ciphertexts,
